@@ -10,6 +10,7 @@ import Ww.Driver.C13
 import Ww.Driver.Cook
 import Ww.Driver.Sched
 import Ww.Driver.Fault
+import Ww.Driver.C20
 open Ww.Driver
 
 def dispatch (l : Line) : List Verdict :=
@@ -40,6 +41,8 @@ def dispatch (l : Line) : List Verdict :=
   | "sched" => handleSched l
   | "fault" => handleFault l
   | "faultdry" => [Verdict.ok]
+  | "start20" => handleStart20 l
+  | "logscan" => handleLogScan l
   | k => [Verdict.bad s!"unknown kind {k}"]
 
 partial def loop (h : IO.FS.Stream) (out : IO.FS.Stream) (i : Nat) : IO Unit := do
